@@ -49,6 +49,79 @@ func runC02(c *fw.Ctx) {
 		}
 	}
 
+	// sizes >= 31 (hash / digit-key / block thresholds), a few per run
+	{
+		br := rand.New(rand.NewSource(c.Seed*7907 + 3))
+		for _, n := range []int{31, 32, 33, 64, 65, 129} {
+			shapes = append(shapes, [][]int{{n}, {1, n}, {n, 1}, {2, n}, {1, 1 + br.Intn(2), n}}[br.Intn(5)])
+		}
+	}
+
+	// groups of different same-rank shapes that collide under ad-hoc cache keys: each case runs the same
+	// operation on every shape of the group, one after the other, in one process
+	for gi, group := range CollidingShapes {
+		for _, op := range []string{"slice", "patch", "varalong1", "pow0", "sumalong", "mul", "tanh", "maxalong", "concat", "unsqueeze"} {
+			gi, group, op := gi, group, op
+			c.Case(func(k *fw.K) {
+				k.Key("colliding/%d/%s", gi, op)
+				k.Count("colliding_shape_group_cases", 1)
+				for _, shape := range group {
+					rank := len(shape)
+					x := Shuffled(k.Rng, Unique(k.Rng, shape, 0.2, 2.5))
+					var in ref.Instr
+					xs := []*ref.T{x}
+					switch op {
+					case "slice":
+						in = ref.Instr{Op: "slice", Index: []ref.Range{{From: 0, To: 1 + k.Rng.Intn(shape[0])}}}
+					case "patch":
+						src := make([]int, rank)
+						for q := range src {
+							src[q] = 1 + k.Rng.Intn(shape[q])
+						}
+						in = ref.Instr{Op: "patch"}
+						xs = append(xs, Shuffled(k.Rng, Unique(k.Rng, src, 5, 8)))
+					case "varalong1": // a dimension of size 1 where there is one, else the last
+						dim := rank - 1
+						for q, d := range shape {
+							if d == 1 {
+								dim = q
+							}
+						}
+						in = ref.Instr{Op: []string{"varalong", "stdalong"}[k.Rng.Intn(2)], Dim: dim}
+					case "pow0":
+						in = ref.Instr{Op: "pow", F: 0}
+					case "sumalong", "maxalong":
+						in = ref.Instr{Op: op, Dim: k.Rng.Intn(rank)}
+					case "mul":
+						in = ref.Instr{Op: "mul"}
+						xs = append(xs, Shuffled(k.Rng, Unique(k.Rng, shape, 0.2, 2.5)))
+					case "tanh":
+						in = ref.Instr{Op: "tanh"}
+					case "concat":
+						in = ref.Instr{Op: "concat", Dim: k.Rng.Intn(rank)}
+						xs = append(xs, Shuffled(k.Rng, Unique(k.Rng, shape, 0.2, 2.5)))
+					case "unsqueeze":
+						in = ref.Instr{Op: "unsqueeze", Dim: k.Rng.Intn(rank + 1)}
+					}
+					y, err := ref.Apply(in, xs)
+					if err != nil {
+						k.Failf("harness: %v", err)
+						return
+					}
+					mask := make([]bool, len(xs))
+					for q := range mask {
+						mask[q] = true
+					}
+					g := randG(k, y.Shape)
+					k.Case = gcase{In: in, Ops: xs, Tracked: mask, G: g}
+					if !gradCheck(k, in, xs, mask, g, "") {
+						return
+					}
+				}
+			})
+		}
+	}
+
 	one := func(key string, mk func(k *fw.K) (ref.Instr, []*ref.T), nOperands int) {
 		for _, mask := range subsets(nOperands) {
 			mask := mask
@@ -128,6 +201,34 @@ func runC02(c *fw.Ctx) {
 		one("tan/"+sk, func(k *fw.K) (ref.Instr, []*ref.T) {
 			return ref.Instr{Op: "tan"}, []*ref.T{Shuffled(k.Rng, Unique(k.Rng, shape, 0.05, 1.2))}
 		}, 1)
+
+		// Max/Min/ElMax/ElMin at distinct values of tiny magnitude (differentiable: the values differ, however close to 0)
+		if len(shape) >= 1 {
+			for _, op := range []string{"maxalong", "minalong"} {
+				op := op
+				one(fmt.Sprintf("%s/%s/tiny", op, sk), func(k *fw.K) (ref.Instr, []*ref.T) {
+					x := UniqueInts(k.Rng, shape)
+					for i := range x.Data {
+						x.Data[i] *= 1e-30
+					}
+					return ref.Instr{Op: op, Dim: k.Rng.Intn(len(shape))}, []*ref.T{x}
+				}, 1)
+			}
+		}
+		for _, op := range []string{"elmax", "elmin"} {
+			op := op
+			one(fmt.Sprintf("%s/%s/tiny", op, sk), func(k *fw.K) (ref.Instr, []*ref.T) {
+				a, b := UniqueInts(k.Rng, shape), UniqueInts(k.Rng, shape)
+				for i := range a.Data {
+					if a.Data[i] == b.Data[i] {
+						b.Data[i] += 0.5
+					}
+					a.Data[i] *= 1e-30
+					b.Data[i] *= 1e-30
+				}
+				return ref.Instr{Op: op}, []*ref.T{a, b}
+			}, 2)
+		}
 
 		// ----- same-shape binary -----
 		for _, op := range []string{"add", "sub", "mul", "div", "elmax", "elmin"} {
